@@ -329,5 +329,65 @@ theorem C03_playing_hook_fault_reported (N : Hook → FCfg → FCfg) (x : FCfg) 
         (playF N x).1.fired = true ∧ (playF N x).1.arm = none) :=
   ⟨fun ha => playF_onPlaying_before x ha hp, fun ha => playF_onPlaying_after x ha hp⟩
 
+/-! ### witnesses and non-vacuity (concrete runs of the model, decided by the kernel; each is also a case of the harness) -/
+
+/-- the process of the harness: `run` (one await) continues with `s2(1, k=2)`, `s2` waits, `s3` (one await) returns 5 -/
+def procC03 : Prog := fun fn _ _ _ =>
+  if fn = 0 then ⟨1, .ret (.cont 1 [1] [(0, 2)])⟩ else if fn = 1 then ⟨0, .ret (.wait 2)⟩ else ⟨1, .ret (.stop (some 5) true)⟩
+
+-- non-vacuity of `C03_hook_fault_ends_excepted`: `on_finish` raising after `super()` (the future already holds the result), the fault
+-- fires in the closing transition of the last step; the run satisfies every hypothesis, and the stepping task has returned
+example :
+    let x := runX procC03 (initX 0 [] (some ⟨.onFinish, 0, true⟩)) [.tick, .tick, .resume (some 7), .tick, .tick]
+    mainHK .onFinish = true ∧ afterClose ⟨.onFinish, 0, true⟩ = false ∧ x.fired = true ∧ x.l.c.st = .excepted faultExc ∧
+    x.l.c.fut = .exc faultExc ∧ x.l.c.pc = .done := by decide +kernel
+
+-- … with a kill pending at that moment (requested while the last step was in flight): the kill action performs the transition, the
+-- fault in `on_kill` fires there; EXCEPTED with the fault, and the requester of the kill is told `True` (`.done`)
+example :
+    let x := runX procC03 (initX 0 [] (some ⟨.onKill, 0, false⟩)) [.tick, .tick, .resume (some 7), .tick, .kill, .tick]
+    x.fired = true ∧ x.l.c.st = .excepted faultExc ∧ x.l.c.fut = .exc faultExc ∧ x.l.c.closed = true ∧
+    x.l.c.actions.map (·.status) = [.done] ∧ x.l.c.pc = .done := by decide +kernel
+
+-- … with a kill requested by a LISTENER of the very transition in which the fault fires (`on_running` raising after `super()`,
+-- i.e. after the listeners were notified): the request is deferred, the process excepts, the action is cancelled by the `finally`
+example :
+    let x := runX procC03 (initX 0 [(.running, 2, .kill)] (some ⟨.onRunning, 1, true⟩)) [.tick, .tick]
+    x.fired = true ∧ x.l.c.st = .excepted faultExc ∧ x.l.c.fut = .exc faultExc ∧ x.l.c.closed = true ∧
+    x.l.c.actions.map (·.status) = [.cancelled] ∧ x.l.c.pc = .done := by decide +kernel
+
+-- non-vacuity of `C03_raising_step_excepted`: the harness's process whose `s3` raises after its await
+example :
+    let l := runL (withStepFault procC03 2 1) (initL 0 []) [.tick, .tick, .resume (some 7), .tick]
+    terminal l.c.st.label = false ∧ l.c.pc = .inUser ⟨0, .raise faultExc⟩ := by decide +kernel
+
+/-- **finding F18 on whole runs (witness)**: `on_terminated` raising AFTER `super()` in the closing transition of the last step: the
+process is EXCEPTED with the fault while its future still holds the result of the FINISHED state it had entered — the two fault points
+that `C03_hook_fault_ends_excepted` excludes, and the conclusion does fail there. -/
+theorem C03_witness_fault_after_close_run :
+    let x := runX procC03 (initX 0 [] (some ⟨.onTerminated, 0, true⟩)) [.tick, .tick, .resume (some 7), .tick, .tick]
+    afterClose ⟨.onTerminated, 0, true⟩ = true ∧ x.fired = true ∧ x.l.c.st = .excepted faultExc ∧ x.l.c.fut = .result ∧
+    x.l.c.closed = true := by decide +kernel
+
+/-- **a fault in a pause hook that has nobody left to report to escapes into the stepping task (witness; NOT in the harness's
+enumeration, reproduced on the real code)**: a pause is pending when `run` returns; the pause action performs the step's transition;
+a listener of that transition (`on_process_running`) calls `kill()`, which supersedes — cancels — the pause action that is running;
+`on_pausing` then raises; `CancellableAction.run` finds its future cancelled and re-raises; the exception leaves `Process.step()`:
+the stepping task has crashed with the fault, the process is still RUNNING, and the `finally` cancelled the kill action too while
+`_killing` still points at it. -/
+theorem C03_witness_superseded_pause_action_escapes :
+    let x := runX procC03 (initX 0 [(.running, 2, .kill)] (some ⟨.onPausing, 0, false⟩)) [.tick, .pause, .tick]
+    x.l.c.pc = .crashed faultExc ∧ x.l.c.st.label = .running ∧ x.l.c.actions.map (·.status) = [.cancelled, .cancelled] ∧
+    x.l.c.killing = some 1 := by decide +kernel
+
+/-- **`call_with_super_check` is not exception-safe (witness, reproduced on the real code)**: `play()` → `on_playing` → the
+`on_process_played` listener calls `kill()` → the transition's `on_exit_running` raises BEFORE calling `super()`, which leaves
+`_called` one too high; the transition handles the fault properly (EXCEPTED with it), but `on_playing`, whose base implementation
+completed, then fails its own final assertion: the caller of `play()` gets an `AssertionError`. -/
+theorem C03_witness_super_check_not_exception_safe :
+    let x := runX procC03 (initX 0 [(.played, 1, .kill)] (some ⟨.exitRunning, 1, false⟩)) [.tick, .pause, .tick]
+    (stepF procC03 x .play).2 = .raised .assertion ∧ (stepF procC03 x .play).1.l.c.st = .excepted faultExc ∧
+    (stepF procC03 x .play).1.l.c.fut = .exc faultExc := by decide +kernel
+
 end FP
 end PMF
